@@ -64,6 +64,9 @@ type Exec struct {
 	pure          *pureCtx
 	purePC        Term
 	fidx          map[string]Term
+	numIfs        int            // number of conditional branches in the function (pruning is enabled for branch-heavy ones)
+	pruned        int            // branches found infeasible
+	sawReturn     bool           // some return instruction was reached on some path
 	zeroT         types.Type     // while a generic callee's contract is applied: its first type argument
 	typesPkg      *types.Package // for lemmas (no function under verification): the package whose names contracts refer to
 	usedContracts map[string]*FnSpec
@@ -184,6 +187,20 @@ func (ex *Exec) verify() (obligs []Oblig, err error) {
 	ex.prepareKnownFindings()
 	ex.footprint = ex.buildFootprint()
 	ex.run(st, fn.Blocks[0], nil)
+	if !ex.sawReturn {
+		hasReturn := false
+		for _, b := range fn.Blocks {
+			for _, in := range b.Instrs {
+				if _, ok := in.(*ssa.Return); ok {
+					hasReturn = true
+				}
+			}
+		}
+		if hasReturn {
+			// every path was pruned as infeasible or ended in a panic: nothing was proved about any return
+			ex.obligs = append(ex.obligs, Oblig{Name: ex.obName("cover.return"), Kind: "cover", Asm: []Term{tFalse}, Goal: tFalse, Cover: true, Desc: "some return is reachable"})
+		}
+	}
 	return ex.obligs, nil
 }
 
@@ -213,6 +230,9 @@ func (ex *Exec) numberSites() {
 	c, s := 0, 0
 	for _, b := range ex.fn.Blocks {
 		for _, in := range b.Instrs {
+			if _, isIf := in.(*ssa.If); isIf {
+				ex.numIfs++
+			}
 			switch in.(type) {
 			case *ssa.Call, *ssa.Defer:
 				ex.callOrd[in] = c
@@ -340,6 +360,9 @@ func (ex *Exec) runFrom(st *State, b *ssa.BasicBlock, idx int, from *ssa.BasicBl
 		for i := range next {
 			if conds[i].S == "false" {
 				continue
+			}
+			if ex.numIfs >= 8 && ex.discover == nil && !ex.feasible(st, conds[i]) {
+				continue // infeasible branch of a branch-heavy function: pruned
 			}
 			s2 := st
 			if i == 0 && conds[1].S != "false" {
@@ -1222,6 +1245,7 @@ func (ex *Exec) doReturn(st *State, r *ssa.Return) {
 			}
 		}
 	}
+	ex.sawReturn = true
 	// vacuity guard: at least one return path must be reachable under everything assumed so far (a contradictory
 	// callee contract or invariant would otherwise "prove" every postcondition)
 	ex.obligs = append(ex.obligs, Oblig{Name: ex.obName("cover.return"), Kind: "cover", Asm: st.asm[:len(st.asm):len(st.asm)], Goal: tFalse, Cover: true, Desc: "some return is reachable"})
